@@ -110,6 +110,8 @@ func Gen(w *bufio.Writer, seed uint64, tier string, prop string) {
 	fixture, err := os.ReadFile(filepath.Join(repoDir(), "functest/packages/dummy.apk"))
 	if err == nil {
 		fmt.Fprintf(w, "APK rounds %s rsa:sha256,p256:sha256,p384:sha512\n", hx.Hex(fixture))
+		// a signer whose certificate chain is longer than 4 KiB (length-prefixed v2 block larger than any initial buffer)
+		fmt.Fprintf(w, "APK rounds %s rsachain:sha256,rsachain:sha512\n", hx.Hex(fixture))
 	}
 	for i := 0; i < n; i++ {
 		rounds := 2 + r.Intn(2)
